@@ -7,6 +7,7 @@ import (
 	"go/format"
 	"go/parser"
 	"go/token"
+	"io"
 	"reflect"
 	"strings"
 	"sync"
@@ -304,7 +305,7 @@ func runC02(r *ev.Recorder) {
 		"every chain A(..).B(..) and every nesting A(.. B(..) ..) of two constructs (quick: B with its first four argument combinations; thorough: all) - each as the body of a File (formatted and as NoFormat twin) and through Statement.Render; "+
 		"(b) every single construct under every combination of %d File settings x %d constructors; (c) valid generated programs (gogen, <= 2 deviations) with EVERY single damage (%v) at EVERY item of EVERY list-construct site. "+
 		"Oracle: no panic; File.Render nil => output parses with go/parser as a file AND equals format.Source of what an identically rebuilt File renders with NoFormat; Statement.Render nil => output parses as declarations or statements; error => the writer received nothing. "+
-		"(e) comments of the C15 domain (texts of length <= 2 and code-like ones) at every position of the C15 hosts: formatted == gofmt(raw twin). (d) instrumented build: for the C07 recipes the formatted render under canonical map order must equal gofmt of the raw render of an identically built File under canonical, reversed and rotated map orders. distinct_nontrivial = distinct cases per outcome class; both classes (valid / error) must be populated", len(cs), len(c02Settings), len(c02Ctors), c02Damages)
+		"(e) comments of the C15 domain (texts of length <= 2 and code-like ones) at every position of the C15 hosts: formatted == gofmt(raw twin). (f) every token sequence of length <= 3 over {Id, Lit, ) } ] ( ,} through Statement.Render, Statement.RenderWithFile and Group.Render into a plain io.Writer and a *bytes.Buffer, empty or already holding one of 5 texts the fragment could complete: verdict and appended bytes equal those for an empty plain writer, earlier content untouched. (d) instrumented build: for the C07 recipes the formatted render under canonical map order must equal gofmt of the raw render of an identically built File under canonical, reversed and rotated map orders. distinct_nontrivial = distinct cases per outcome class; both classes (valid / error) must be populated", len(cs), len(c02Settings), len(c02Ctors), c02Damages)
 	r.Assume = []string{"documented deliberate panics are outside the alphabet (Lit of an unsupported type, a Dict next to other items in Values, nil callbacks, nil Dict keys/values)",
 		"a fragment whose text is a complete file by itself (e.g. a bare package clause) is tolerated for Statement.Render"}
 	var mu sync.Mutex
@@ -495,6 +496,102 @@ func runC02(r *ev.Recorder) {
 			}
 		}
 	}
+	// (f) fragments rendered into writers that already hold text: every token sequence of length
+	// <= 3 over a small alphabet of closers, openers and operands, through the three fragment entry
+	// points, into a *bytes.Buffer / a plain io.Writer, empty or pre-filled with text that the
+	// fragment could complete. Verdict and bytes must not depend on the writer: what is appended
+	// equals what an empty plain writer receives, and the earlier content stays.
+	{
+		toks := []struct {
+			name string
+			add  func(s *jen.Statement)
+		}{
+			{"Id(a)", func(s *jen.Statement) { s.Id("a") }}, {"Op())", func(s *jen.Statement) { s.Op(")") }}, {"Op(})", func(s *jen.Statement) { s.Op("}") }},
+			{"Op(])", func(s *jen.Statement) { s.Op("]") }}, {"Op(()", func(s *jen.Statement) { s.Op("(") }}, {"Op(,)", func(s *jen.Statement) { s.Op(",") }}, {"Lit(1)", func(s *jen.Statement) { s.Lit(1) }},
+		}
+		prefixes := []string{"", "f(", "x := []int{", "a[", "func() {", "var x = 1\n"}
+		type entry struct {
+			name string
+			run  func(s *jen.Statement, w io.Writer) error
+		}
+		entries := []entry{
+			{"Statement.Render", func(s *jen.Statement, w io.Writer) error { return s.Render(w) }},
+			{"Statement.RenderWithFile", func(s *jen.Statement, w io.Writer) error { return s.RenderWithFile(w, jen.NewFile("p")) }},
+			{"Group.Render", func(s *jen.Statement, w io.Writer) error {
+				var grp *jen.Group
+				jen.CustomFunc(jen.Options{}, func(g *jen.Group) { g.Add(s); grp = g })
+				return grp.Render(w)
+			}},
+		}
+		var seqs [][]int
+		for l := 1; l <= 3; l++ {
+			n := 1
+			for i := 0; i < l; i++ {
+				n *= len(toks)
+			}
+			for k := 0; k < n; k++ {
+				seq, j := make([]int, l), k
+				for i := range seq {
+					seq[i] = j % len(toks)
+					j /= len(toks)
+				}
+				seqs = append(seqs, seq)
+			}
+		}
+		explore.Range(int64(len(seqs)), 0, r.Expired, func(_ int, si int64) {
+			seq := seqs[si]
+			build := func() (*jen.Statement, string) {
+				s := &jen.Statement{}
+				var names []string
+				for _, t := range seq {
+					toks[t].add(s)
+					names = append(names, toks[t].name)
+				}
+				return s, strings.Join(names, ".")
+			}
+			for _, e := range entries {
+				var baseOut string
+				var baseErr bool
+				for pi, prefix := range prefixes {
+					for kind := 0; kind < 2; kind++ {
+						s, name := build()
+						var buf bytes.Buffer
+						buf.WriteString(prefix)
+						var w io.Writer = &buf
+						if kind == 0 {
+							w = struct{ io.Writer }{&buf}
+						}
+						o := jh.Catch(func() (string, error) { return "", e.run(s, w) })
+						r.Eval(1)
+						desc := fmt.Sprintf("%s of %s into a %s holding %q", e.name, name, []string{"plain io.Writer", "*bytes.Buffer"}[kind], prefix)
+						msg := ""
+						got := buf.String()
+						switch {
+						case o.Panic != nil:
+							msg = fmt.Sprintf("panic: %v", o.Panic)
+						case pi == 0 && kind == 0:
+							baseErr, baseOut = o.Err != nil, got
+							if o.Err == nil {
+								r.Distinct("prefilled:" + e.name + name)
+							}
+						case (o.Err != nil) != baseErr:
+							msg = fmt.Sprintf("verdict depends on the writer: error=%v here, error=%v into an empty plain writer", o.Err, baseErr)
+						case !strings.HasPrefix(got, prefix):
+							msg = fmt.Sprintf("the writer's earlier content %q was changed: now %q", prefix, got)
+						case got[len(prefix):] != baseOut:
+							msg = fmt.Sprintf("wrote %q, but %q into an empty plain writer", got[len(prefix):], baseOut)
+						}
+						if msg != "" {
+							r.Violate(ev.Violation{Signature: "c02:prefilled-writer:" + e.name + ":" + problemKind(msg), What: desc + ": " + jh.Short(msg, 200), Case: ev.JSON(c02Case{Kind: "prefilled", A: name, Desc: desc}), Detail: msg})
+						}
+					}
+				}
+			}
+		})
+		mu.Lock()
+		classes["fragment-into-prefilled-writer"] = int64(len(seqs) * len(entries) * len(prefixes) * 2)
+		mu.Unlock()
+	}
 	// (d) twins under different map iteration orders (instrumented build): the formatted render
 	// under canonical order must equal gofmt of the raw render of an identically built File
 	// under every uniform order policy
@@ -545,6 +642,9 @@ func replayC02(raw json.RawMessage) (bool, string) {
 	c02Constructs()
 	if c.Kind == "twin" {
 		return true, "the twin comparison under map orders is replayed by running the check"
+	}
+	if c.Kind == "prefilled" {
+		return true, "the pre-filled writer cases are replayed by running the check (" + c.Desc + ")"
 	}
 	if c.Kind == "damage" {
 		i := 0
